@@ -634,15 +634,48 @@ def children_before_call(ctx: Ctx, rs: RuleSet, rule='DOM.children-before-call')
                     f'children>) : metadata_ok={md_ok} children_ok={sub_ok} '
                     f'same_value={bool(first_ok)}')
       rs.check(ok, rule, key, detail, ctx.loc(f, e))
-    # non-Buildables are rebuilt through map_children on the same state
-    other = [n for n in g.nodes() if isinstance(g.stmt[n], ast.Return) and
-             isinstance(g.stmt[n].value, ast.Call) and isinstance(
-                 g.stmt[n].value.func, ast.Attribute) and
-             g.stmt[n].value.func.attr == 'map_children']
-    rs.check(bool(other), rule, f'{f.qualname}:containers',
-             'containers are rebuilt with map_children under the same '
-             'traversal (nested Buildables inside them are built too)',
-             ctx.loc(f, f.node))
+    # every other value goes through map_children of the same traversal:
+    # no return of the callback may bypass it
+    state_p = f.params[1] if len(f.params) > 1 else 'state'
+    rets = [g.stmt[n] for n in g.nodes() if isinstance(g.stmt[n], ast.Return)]
+    bad = []
+    n_mc = 0
+    def _kind(v, depth=0):
+      if isinstance(v, ast.Call) and ctx.p.resolve(
+          v.func, f) == 'fiddle._src.building.call_buildable':
+        return 'call'
+      if isinstance(v, ast.Call) and unparse(v.func) == (
+          f'{state_p}.map_children') and len(v.args) == 1 and unparse(
+              v.args[0]) == value:
+        return 'mc'
+      if isinstance(v, ast.Name) and depth < 3:
+        # a local holding one of the accepted results
+        defs = [s.value for s in walk_function(f.node)
+                if isinstance(s, ast.Assign) and any(
+                    isinstance(t, ast.Name) and t.id == v.id
+                    for t in s.targets)]
+        kinds = {_kind(d, depth + 1) for d in defs}
+        if len(kinds) == 1 and None not in kinds:
+          return kinds.pop()
+      return None
+
+    for r in rets:
+      k = _kind(r.value)
+      if k == 'mc':
+        n_mc += 1
+      elif k is None:
+        bad.append(r)
+    rs.check(n_mc >= 1 and not bad, rule, f'{f.qualname}:containers',
+             'every non-Buildable value is rebuilt with '
+             'state.map_children(value) under the same traversal (nested '
+             'Buildables in any registered container type are built)'
+             if n_mc >= 1 and not bad else
+             f'`{unparse(bad[0])[:80]}` returns a value without traversing it '
+             'with state.map_children: Buildables nested in container types '
+             'the shortcut does not know (named tuples, defaultdicts, '
+             'registered types) are passed to the callable unbuilt'
+             if bad else 'no map_children return found',
+             ctx.loc(f, bad[0] if bad else f.node))
 
 
 def run(ctx: Ctx, rs: RuleSet, tier: str):
